@@ -558,3 +558,122 @@ def spawn_obligations(name, mir_text, lib_rs):
             add("C01,C02,C03", f"I-filter: filter closure path {i}: the boundary test is applied to the candidate state itself", z3.unsat if wbs[0][2] == argv else _check([], g)[0])
     info = {"function": body.name, "blocks": len(body.blocks), "paths": len(outs), "filter_closures": len(closures), "loops_havocked": [f"bb{h}" for h in sorted(loops)]}
     return res, info
+
+
+# ---- Checker::assert_properties / assert_no_discovery / assert_any_discovery (src/checker.rs) ---------------------------------
+class AssertExecutor(DiscExecutor):
+    def call(self, st, body, t):
+        f = t.args["func"]
+        if not st.frames:
+            args = [self.read(st, a) for a in t.args["args"]]
+            tv = tuple(self._target_cell(st, a)[1] for a in args)
+            m = re.search(r"<Self as checker::Checker<M>>::(\w+)$", f)
+            if m and m.group(1) == "discovery":
+                b = self.fresh_bool("found")
+                st.events.append(("discovery", tv[1] if len(tv) > 1 else None, b))
+                return ("opt", b, st.alloc(("opaque", f"path#{next(self.fresh)}")))
+            if m and m.group(1) == "is_done":
+                b = self.fresh_bool("done")
+                st.events.append(("is_done", b))
+                return B(b)
+            if m and m.group(1) in ("assert_any_discovery", "assert_no_discovery"):
+                st.events.append((m.group(1), tv[1] if len(tv) > 1 else None))
+                return self._fresh_by_type(st, None, "asserted")
+        return super().call(st, body, t)
+
+
+def assert_obligations(mir_text, lib_rs):
+    """A-kind  [C02] assert_properties asserts "no discovery" for every Always/Eventually property and "some discovery" for
+                     every Sometimes property, and leaves its loop only when the property list is exhausted
+       A-no    [C02] assert_no_discovery(name) returns only if discovery(name) is None and is_done() is true
+       A-any   [C02] assert_any_discovery(name) returns only if discovery(name) is Some"""
+    from mir import parse_body, split_functions
+    from symex import Executor, State
+    from blockloop import natural_loops_by_dominators, _assigned
+    order = expectation_order(lib_rs)
+    A, E, S_ = order["Always"], order["Eventually"], order["Sometimes"]
+    fns = {}
+    for f in split_functions(mir_text):
+        m = re.match(r"^fn checker::Checker::(assert_properties|assert_any_discovery|assert_no_discovery)\(", f.split("\n", 1)[0])
+        if m:
+            fns[m.group(1)] = f
+    if len(fns) != 3:
+        raise Unsupported(f"Checker::assert_* not found in the MIR (found {sorted(fns)})")
+    res = []
+
+    def add(ob, r):
+        res.append({"obligation": f"checker.rs {ob}", "tag": "C02", "result": "unsat" if r == z3.unsat else ("sat" if r == z3.sat else str(r))})
+
+    def run(fname):
+        text = fns[fname]
+
+        class Ex(AssertExecutor):
+            pass
+        Ex.exp_locals = frozenset(int(x) for x in re.findall(r"_(\d+) = discriminant\(\([^;]*: Expectation\)\);", text))
+        body = parse_body(text)
+        ex = Ex({Executor.short(body): body})
+        ex.job_types, ex.depth_idx = [], None
+        loops = natural_loops_by_dominators(body)
+        ex.loop_havoc = {h: _assigned(body, blks) for h, blks in loops.items()}
+        ex.stop_blocks = set()
+        st = State()
+        pv = {}
+        for pi, pno in enumerate(body.params):
+            pv[pi] = ("opaque", f"param{pi}")
+            st.locals[pno] = st.alloc(("ref", st.alloc(pv[pi])))
+        return body, ex.run(body, st, 0), pv
+
+    n = {"ret_no": 0, "ret_any": 0, "iter": 0, "exit": 0}
+    for fname, want_found in (("assert_no_discovery", False), ("assert_any_discovery", True)):
+        body, outs, pv = run(fname)
+        for i, o in enumerate(outs):
+            if o.kind != "return":
+                continue
+            g = z3.And(*o.st.pc) if o.st.pc else z3.BoolVal(True)
+            if _check([], g)[0] != z3.sat:
+                continue
+            n["ret_any" if want_found else "ret_no"] += 1
+            ds = [e for e in o.st.events if e[0] == "discovery"]
+            if not ds:
+                add(f"{fname} path {i}: A-{'any' if want_found else 'no'}: returns only after looking the discovery up", _check([], g)[0])
+                continue
+            add(f"{fname} path {i}: the discovery looked up is the one of the name given", z3.unsat if ds[0][1] == pv[1] else _check([], g)[0])
+            if want_found:
+                add(f"{fname} path {i}: A-any: returns only if a discovery exists", _check([], g, z3.Not(ds[0][2]))[0])
+            else:
+                add(f"{fname} path {i}: A-no: returns only if no discovery exists", _check([], g, ds[0][2])[0])
+                dn = [e for e in o.st.events if e[0] == "is_done"]
+                add(f"{fname} path {i}: A-no: returns only if is_done() is true (absence of a discovery means something only after a completed check)",
+                    _check([], g, z3.Not(dn[0][1]))[0] if dn else _check([], g)[0])
+    body, outs, pv = run("assert_properties")
+    for i, o in enumerate(outs):
+        if o.kind == "panic":
+            continue
+        g = z3.And(*o.st.pc) if o.st.pc else z3.BoolVal(True)
+        if _check([], g)[0] != z3.sat:
+            continue
+        evs = o.st.events
+        exps = [e for e in evs if e[0] == "expectation"]
+        a_no = [e for e in evs if e[0] == "assert_no_discovery"]
+        a_any = [e for e in evs if e[0] == "assert_any_discovery"]
+        if o.kind == "cut" and exps:
+            n["iter"] += 1
+            K = exps[0][1]
+            if len(a_no) + len(a_any) != 1:
+                add(f"assert_properties path {i}: A-kind: every property is asserted exactly once ({len(a_no)}+{len(a_any)} assertions)", _check([], g)[0])
+            if a_no:
+                add(f"assert_properties path {i}: A-kind: 'no discovery' is asserted only for Always / Eventually properties", _check([], g, z3.Not(z3.Or(K == A, K == E)))[0])
+            if a_any:
+                add(f"assert_properties path {i}: A-kind: 'some discovery' is asserted only for Sometimes properties", _check([], g, K != S_)[0])
+        if o.kind == "return":
+            n["exit"] += 1
+            nx = [e for e in evs if e[0] == "iter_next"]
+            if not nx:
+                add(f"assert_properties path {i}: A-kind: returns only after iterating over the properties", _check([], g)[0])
+                continue
+            ds = [e for e in evs if e[0] == "discr_of" and e[1] == nx[-1][1]]
+            add(f"assert_properties path {i}: A-kind: returns only when the property list is exhausted (every property is asserted)",
+                _check([], g, ds[-1][2] != 0)[0] if ds else _check([], g)[0])
+    if min(n.values()) == 0:
+        raise Unsupported(f"Checker::assert_*: shape not recognised {n}")
+    return res, {"functions": [f"checker::Checker::{k}" for k in sorted(fns)], "paths_seen": n}
